@@ -7,6 +7,7 @@ import (
 	"context"
 	"errors"
 	"fmt"
+	"strings"
 	"time"
 
 	simrt "github.com/insomniacslk/dhcp/zzsimrt"
@@ -58,124 +59,166 @@ func (st *ccState) eligibleFor(c *ccCall, r *rxRec) bool {
 	return r.info.Eligible && r.info.Xid == c.spec.xid
 }
 
-// mapHandovers links every hand-over of every call to the delivery it stems
-// from (R2) and returns, per match record, the rx record.
-func (st *ccState) mapHandovers(v *vio) map[*matchRec]*rxRec {
-	p := st.cfg.p
-	for _, r := range st.rx {
-		r.used = false
+// handovers returns, in order, what call c was handed (matcher invocations, or the
+// returned message of a nil-matcher call).
+func (st *ccState) handovers(c *ccCall) []*matchRec {
+	hs := append([]*matchRec(nil), c.matches...)
+	if c.spec.mk == mkNil && c.returned && c.err == nil && !c.retNil {
+		if c.nilRet == nil {
+			c.nilRet = &matchRec{seq: c.retSeq, doneSeq: c.retSeq, t: c.retT, info: c.retInfo, ptr: c.ret, verdict: true, bytes: st.cfg.p.MsgBytes(c.ret)}
+		}
+		hs = append(hs, c.nilRet)
 	}
+	return hs
+}
+
+func (st *ccState) canon(r *rxRec) []byte {
+	if r.canon == nil && r.info.Decodes {
+		r.canon = st.cfg.p.Redecode(r.bytes)
+	}
+	return r.canon
+}
+
+// checkHandovers is R1 (own transaction, never nil) and the global part of R2
+// (no message object handed over twice; every handed message is the decoding of
+// a datagram delivered earlier; not more hand-overs than deliveries of it).
+func (st *ccState) checkHandovers(v *vio) {
 	ptrs := map[interface{}]int{}
-	out := map[*matchRec]*rxRec{}
-	// process hand-overs in global order; a nil-matcher call's return is a hand-over too
-	type hm struct {
-		c *ccCall
-		m *matchRec
-	}
-	var all []hm
+	handed := map[string]int{}
 	for _, c := range st.calls {
-		for _, m := range c.matches {
-			all = append(all, hm{c, m})
-		}
-		if c.spec.mk == mkNil && c.returned && c.err == nil && !c.retNil {
-			m := &matchRec{seq: c.retSeq, doneSeq: c.retSeq, t: c.retT, info: c.retInfo, ptr: c.ret, verdict: true, bytes: p.MsgBytes(c.ret)}
-			c.nilRet = m
-			all = append(all, hm{c, m})
-		}
-	}
-	for i := 1; i < len(all); i++ {
-		for j := i; j > 0 && all[j].m.seq < all[j-1].m.seq; j-- {
-			all[j], all[j-1] = all[j-1], all[j]
-		}
-	}
-	for _, h := range all {
-		c, m := h.c, h.m
-		if m.isNil {
-			v.add("R1-nil", "call %d (xid %x): matcher was handed a nil message at #%d", c.id, c.spec.xid, m.seq)
-			continue
-		}
-		if !m.info.Eligible || m.info.Xid != c.spec.xid {
-			v.add("R1-own", "call %d (xid %x): was handed a message with xid %x eligible=%v (serial %d) at #%d",
-				c.id, c.spec.xid, m.info.Xid, m.info.Eligible, m.info.Serial, m.seq)
-		}
-		ptrs[m.ptr]++
-		if ptrs[m.ptr] == 2 {
-			v.add("R2-shared", "message object (serial %d) was handed over more than once (call %d at #%d)", m.info.Serial, c.id, m.seq)
-		}
-		// The try the hand-over belongs to: lb is the earliest event after which the
-		// source datagram must still have been in the receive loop's hands, ws the
-		// start of the proven-registered window.
-		lb, ws := c.invSeq, c.invSeq
-		prev := c.invSeq
-		for _, tx := range c.txs {
-			if tx.failed || tx.seq > m.seq {
+		for _, m := range st.handovers(c) {
+			if m.isNil {
+				v.add("R1-nil", "call %d (xid %x): matcher was handed a nil message at #%d", c.id, c.spec.xid, m.seq)
 				continue
 			}
-			lb, ws = prev, tx.seq
-			prev = tx.seq
+			if !m.info.Eligible || m.info.Xid != c.spec.xid {
+				v.add("R1-own", "call %d (xid %x): was handed a message with xid %x eligible=%v (serial %d) at #%d",
+					c.id, c.spec.xid, m.info.Xid, m.info.Eligible, m.info.Serial, m.seq)
+			}
+			ptrs[m.ptr]++
+			if ptrs[m.ptr] == 2 {
+				v.add("R2-shared", "message object (serial %d) was handed over more than once (call %d at #%d)", m.info.Serial, c.id, m.seq)
+			}
+			n := 0
+			for _, r := range st.rx {
+				if r.seq < m.seq && r.info.Decodes && r.info.Serial == m.info.Serial && bytes.Equal(st.canon(r), m.bytes) {
+					n++
+				}
+			}
+			if n == 0 {
+				v.add("R2-provenance", "call %d: message handed over at #%d (serial %d) is not the decoding of any datagram delivered before", c.id, m.seq, m.info.Serial)
+			}
+			handed[string(m.bytes)]++
+			if n > 0 && handed[string(m.bytes)] > n {
+				v.add("R2-duplicated", "serial %d was handed over %d times but delivered only %d time(s) before #%d", m.info.Serial, handed[string(m.bytes)], n, m.seq)
+			}
 		}
-		// candidates: deliveries of these very bytes before the hand-over, not yet consumed
-		var inWindow, latest, stale *rxRec
+	}
+}
+
+// checkTrySequences is R3 (and the per-try part of R2): within a try, what the
+// call is handed must be a prefix of A' ++ W compared by content, where W is the
+// sequence of eligible datagrams delivered after the try's transmission and A' is
+// some suffix of A, the eligible datagrams the receive loop may still have had
+// in hand when the try registered. It is violated only if no choice of A' fits.
+func (st *ccState) checkTrySequences(v *vio, c *ccCall, timing bool) {
+	hs := st.handovers(c)
+	lb := c.invSeq
+	for _, tr := range c.tries() {
+		var A, W []*rxRec
 		for _, r := range st.rx {
-			if r.used || r.seq > m.seq || !r.info.Decodes || r.info.Serial != m.info.Serial {
+			if !st.eligibleFor(c, r) {
 				continue
 			}
-			if !bytes.Equal(p.Redecode(r.bytes), m.bytes) {
-				continue
+			switch {
+			case r.seq < tr.tx.seq && (r.doneSeq == 0 || r.doneSeq >= lb):
+				A = append(A, r)
+			case r.seq > tr.tx.seq && r.seq < tr.endSeq:
+				W = append(W, r)
 			}
-			if r.doneSeq != 0 && r.doneSeq < lb {
-				stale = r
-				continue
+		}
+		var H []*matchRec
+		for _, m := range hs {
+			if m.seq > tr.tx.seq && m.seq <= tr.endSeq && !m.isNil {
+				H = append(H, m)
 			}
-			if r.seq > ws && inWindow == nil {
-				inWindow = r
-			}
-			latest = r
 		}
-		found := inWindow
-		if found == nil {
-			found = latest
-		}
-		if found == nil && stale != nil {
-			found = stale
-			v.add("R2-stale", "call %d (invoked #%d) was handed at #%d a datagram (serial %d) the receive loop had finished with before the current try could have registered (delivered #%d, done #%d)", c.id, c.invSeq, m.seq, m.info.Serial, stale.seq, stale.doneSeq)
-		}
-		if found == nil {
-			v.add("R2-provenance", "call %d: message handed over at #%d (serial %d) is not the decoding of any datagram delivered before it and not yet handed over", c.id, m.seq, m.info.Serial)
-			continue
-		}
-		found.used = true
-		out[m] = found
-	}
-	// identical datagrams are interchangeable: make the assignment monotone per call
-	for _, c := range st.calls {
-		ms := c.matches
-		if c.nilRet != nil {
-			ms = append(append([]*matchRec(nil), ms...), c.nilRet)
-		}
-		for i := 0; i < len(ms); i++ {
-			for j := i + 1; j < len(ms); j++ {
-				ri, rj := out[ms[i]], out[ms[j]]
-				if ri != nil && rj != nil && ri.seq > rj.seq && bytes.Equal(ri.bytes, rj.bytes) && rj.seq < ms[i].seq {
-					out[ms[i]], out[ms[j]] = rj, ri
+		lb = tr.tx.seq
+		// deliveries that must have been handed over for timing reasons
+		var must []*rxRec
+		if timing {
+			for _, r := range W {
+				if r.t > tr.tx.t && r.t < tr.endT && !st.closedBefore(r.seq) {
+					must = append(must, r)
 				}
 			}
 		}
+		fits, prompt := false, false
+		for k := len(A); k >= 0; k-- {
+			seq := append(append([]*rxRec(nil), A[k:]...), W...)
+			if len(H) > len(seq) {
+				continue
+			}
+			ok := true
+			for i, m := range H {
+				if seq[i].seq > m.seq || !bytes.Equal(st.canon(seq[i]), m.bytes) {
+					ok = false
+					break
+				}
+			}
+			if !ok {
+				continue
+			}
+			fits = true
+			pr := true
+			for _, r := range must {
+				idx := -1
+				for i, x := range seq {
+					if x == r {
+						idx = i
+					}
+				}
+				if idx >= len(H) {
+					pr = false
+				}
+			}
+			if pr {
+				prompt = true
+				break
+			}
+		}
+		ser := func(rs []*rxRec) string {
+			var out []string
+			for _, r := range rs {
+				out = append(out, fmt.Sprintf("%d@#%d", r.info.Serial, r.seq))
+			}
+			return "[" + strings.Join(out, " ") + "]"
+		}
+		if !fits {
+			var hh []string
+			for _, m := range H {
+				hh = append(hh, fmt.Sprintf("%d@#%d", m.info.Serial, m.seq))
+			}
+			v.add("R3-sequence", "call %d, try transmitted at #%d: handed over [%s] (serial@event), which is not a prefix, in arrival order and without gaps, of the eligible datagrams delivered after the transmission %s, even allowing any tail of those still in the receive loop's hands before it %s",
+				c.id, tr.tx.seq, strings.Join(hh, " "), ser(W), ser(A))
+		} else if !prompt {
+			v.add("R3-prompt", "call %d, try transmitted at #%d (t=%v..%v): eligible datagram(s) %s were delivered strictly inside the try but only %d message(s) were handed over", c.id, tr.tx.seq, tr.tx.t, tr.endT, ser(must), len(H))
+		}
 	}
-	return out
 }
 
 // ---------------------------------------------------------------- C10
 
 func (st *ccState) oracleRouting(v *vio) {
 	cfg := st.cfg
-	hmap := st.mapHandovers(v)
+	st.checkHandovers(v)
 	gatedRun := false
 	for _, c := range st.calls {
 		if c.spec.mk == mkGated {
 			gatedRun = true
 		}
 	}
+	timing := !cfg.stall && !gatedRun && st.readErrSeq == 0
 	for _, c := range st.calls {
 		if !c.returned {
 			continue // reported as deadlock by the scheduler
@@ -202,7 +245,7 @@ func (st *ccState) oracleRouting(v *vio) {
 				}
 				m := c.matches[firstTrue]
 				for _, tx := range c.txs {
-					if tx.invSeq > m.doneSeq {
+					if tx.seq > m.doneSeq {
 						v.add("R4-tx-after-accept", "call %d: transmission at #%d after the matcher accepted at #%d", c.id, tx.seq, m.seq)
 					}
 				}
@@ -216,76 +259,9 @@ func (st *ccState) oracleRouting(v *vio) {
 			} else if c.err == nil {
 				v.add("R4-result", "call %d: returned a message (serial %d) the matcher never accepted", c.id, c.retInfo.Serial)
 			}
-		} else if c.err == nil && !c.retNil && c.nilRet != nil {
-			// nil matcher: the returned message is the first eligible one of its try
-			if src := hmap[c.nilRet]; src != nil {
-				var tr *tryRec
-				ts := c.tries()
-				for i := range ts {
-					if ts[i].tx.seq < c.retSeq {
-						tr = &ts[i] // the try in which the message was returned
-					}
-				}
-				if tr != nil {
-					for _, r := range st.rx {
-						if r.seq > tr.tx.seq && r.seq < src.seq && st.eligibleFor(c, r) {
-							v.add("R3-first", "call %d (nil matcher): returned serial %d delivered at #%d although eligible serial %d was delivered earlier in the same try, at #%d", c.id, c.retInfo.Serial, src.seq, r.info.Serial, r.seq)
-							break
-						}
-					}
-				}
-			}
 		}
-		// R3: order and completeness inside a try
-		if c.spec.mk != mkNil {
-			for _, tr := range c.tries() {
-				var handed []*rxRec
-				for _, m := range c.matches {
-					if m.seq > tr.tx.seq && m.seq < tr.endSeq {
-						if r := hmap[m]; r != nil {
-							handed = append(handed, r)
-						}
-					}
-				}
-				for i := 1; i < len(handed); i++ {
-					if handed[i].seq < handed[i-1].seq {
-						v.add("R3-order", "call %d: serial %d (delivered #%d) handed over after serial %d (delivered #%d)", c.id, handed[i].info.Serial, handed[i].seq, handed[i-1].info.Serial, handed[i-1].seq)
-					}
-				}
-				if len(handed) > 0 {
-					last := handed[len(handed)-1]
-					for _, r := range st.rx {
-						if r.seq > tr.tx.seq && r.seq < last.seq && st.eligibleFor(c, r) {
-							ok := false
-							for _, h := range handed {
-								if h == r {
-									ok = true
-								}
-							}
-							if !ok {
-								v.add("R3-loss", "call %d: eligible serial %d delivered at #%d (after the try's transmission #%d) was skipped; serial %d delivered later at #%d was handed over", c.id, r.info.Serial, r.seq, tr.tx.seq, last.info.Serial, last.seq)
-							}
-						}
-					}
-				}
-				// R3': delivered strictly inside the try in virtual time => handed over
-				if !cfg.stall && !gatedRun && st.readErrSeq == 0 {
-					for _, r := range st.rx {
-						if st.eligibleFor(c, r) && r.t > tr.tx.t && r.t < tr.endT && r.seq > tr.tx.seq {
-							ok := false
-							for _, h := range handed {
-								if h == r {
-									ok = true
-								}
-							}
-							if !ok && !st.closedBefore(r.seq) {
-								v.add("R3-prompt", "call %d: eligible serial %d delivered at t=%v (#%d), strictly inside a try lasting until t=%v, was never handed over", c.id, r.info.Serial, r.t, r.seq, tr.endT)
-							}
-						}
-					}
-				}
-			}
-		}
+		// R3 (order, no loss, first) per try
+		st.checkTrySequences(v, c, timing)
 	}
 	st.oracleRefusal(v)
 }
@@ -336,10 +312,17 @@ func (st *ccState) provenStretches(a *ccCall) []stretch {
 			}
 		}
 		if a.spec.mk == mkNil {
-			// any eligible delivery may complete the call
+			// any eligible delivery completes the call, also one the receive loop still
+			// had in hand when the try registered (then nothing is proven)
 			for _, r := range st.rx {
-				if r.seq > tr.tx.invSeq && st.eligibleFor(a, r) && r.seq < s.toSeq {
+				if !st.eligibleFor(a, r) {
+					continue
+				}
+				if r.seq > tr.tx.seq && r.seq < s.toSeq {
 					s.toSeq = r.seq
+				}
+				if r.seq < tr.tx.seq && (r.doneSeq == 0 || r.doneSeq >= a.invSeq) {
+					s.toSeq = s.fromSeq
 				}
 			}
 		}
@@ -661,4 +644,56 @@ func maxDur(a, b time.Duration) time.Duration {
 		return a
 	}
 	return b
+}
+
+// reachProbes counts, from the recorded history, the situations the design wants
+// to be sure are reached (DESIGN.md §3.8).
+func (st *ccState) reachProbes() {
+	s := st.s
+	p := st.cfg.p
+	for _, c := range st.calls {
+		if !c.returned {
+			continue
+		}
+		switch {
+		case c.err == nil:
+			s.Probe("call-returned-response")
+		case p.IsInUse(c.err):
+			s.Probe("call-refused-id-in-use")
+		case p.IsNoResponse(c.err):
+			s.Probe("call-no-response")
+		case isCtxErr(c.err):
+			s.Probe("call-context-error")
+		default:
+			s.Probe("call-other-error")
+		}
+		if c.cancelSeq != 0 {
+			s.Probe("cancel-while-call-waits")
+		}
+		for _, cl := range st.closeCalls {
+			if cl.invSeq > c.invSeq && cl.invSeq < c.retSeq {
+				s.Probe("close-while-call-waits")
+			}
+		}
+		trs := c.tries()
+		if len(trs) > 1 {
+			s.Probe("call-retransmitted")
+		}
+		for _, tr := range trs {
+			for _, r := range st.rx {
+				if st.eligibleFor(c, r) && r.t == tr.endT && r.seq > tr.tx.seq {
+					s.Probe("tie-delivery-at-try-end-instant")
+				}
+			}
+		}
+		if len(c.matches) > 1 {
+			s.Probe("call-saw-rejected-then-more")
+		}
+	}
+	if len(st.closeCalls) > 1 {
+		s.Probe("close-called-twice")
+	}
+	if st.readErrSeq != 0 {
+		s.Probe("receive-loop-ended-by-read-error")
+	}
 }
